@@ -1260,7 +1260,8 @@ def decode_sheet(pkg, part, sst, n_xf):
             authors = []
             a = kid(croot, "authors")
             if a is not None:
-                authors = [(_elem_text(x) or "") for x in kids(a, "author")]
+                # CT_Authors/author is an ST_Xstring (ECMA-376 part 1, 18.7.2)
+                authors = [xstring_decode(_elem_text(x) or "") for x in kids(a, "author")]
             cl = kid(croot, "commentList")
             if cl is not None:
                 for cm in kids(cl, "comment"):
